@@ -773,7 +773,8 @@ MANIFEST = {
             "objects joined back to back through real serializer round trips; the ERROR on the "
             "callee's wire and the failure at the caller are compared with expectations derived "
             "from the property statement (URI, args, kwargs, exact class or generic ApplicationError, "
-            "exactly one outcome, nothing escaping onMessage).",
+            "exactly one outcome, nothing escaping onMessage)."
+            " The grid is repeated with a payload codec active on both sides (the ERROR travels encoded: envelope complete, inner URI equals the envelope's) and contains a class under two stacked @wamp.error decorators.",
     "note": "Trusted: harness/wamp_b2b.py scripted router (relays ERROR verbatim) and transport "
             "(serialization failure -> SerializationError like the WebSocket/RawSocket transports). "
             "ApplicationError's own reserved keyword names are modelled as message details. Only the "
